@@ -153,4 +153,111 @@ theorem toIndexPF_eq (sp keys vals : List Nat) : toIndexPF sp keys vals = toInde
 
 example : toIndexPF [2, 3, 2] [1, 2] [2, 1] = 10 ∧ expandFrom 0 [2, 3, 2] [1, 2] [2, 1] = [0, 2, 1] := by decide
 
+/-! ## FactoredMatrix2D::operator*=(const Vector &) -/
+
+theorem bm_get_affine (w t : Rat) (add : Bool) (sp ac x a : List Nat) (b : BM) (hx : Valid sp x) (ha : Valid ac a) (hb : b.WF sp ac) :
+    ({ b with vals := b.vals.map (·.map (fun v => if add then v * w + t else v * w)) } : BM).get sp ac x a
+      = b.get sp ac x a * w + (if add then t else 0) := by
+  obtain ⟨t1, t2, t3, t4⟩ := hb
+  obtain ⟨hi, _⟩ := toIndexPartial_spec sp x b.tag hx t1.2
+  obtain ⟨hj, _⟩ := toIndexPartial_spec ac a b.atag ha t2.2
+  have hi' : toIndexPartial b.tag sp x < b.vals.length := by rw [t3]; exact hi
+  have hj' : toIndexPartial b.atag ac a < (b.vals.getD (toIndexPartial b.tag sp x) []).length := by rw [t4 _ hi']; exact hj
+  unfold BM.get
+  simp only [List.getD_eq_getElem?_getD, List.getElem?_map, List.getElem?_eq_getElem hi', Option.map_some, Option.getD_some] at hj' ⊢
+  rw [List.getElem?_eq_getElem hj']
+  cases add <;> simp
+
+theorem fmScaleW_aux (t : Rat) (add : Bool) (sp ac x a : List Nat) (hx : Valid sp x) (ha : Valid ac a) : ∀ (fm : FM) (w : List Rat),
+    FM.WF sp ac fm → fm.length ≤ w.length →
+    fmGet sp ac ((fm.zip w).map (fun bw => ({ bw.1 with vals := bw.1.vals.map (·.map (fun v => if add then v * bw.2 + t else v * bw.2)) } : BM))) x a
+      = (fm.zip w).foldl (fun acc bw => acc + bw.1.get sp ac x a * bw.2) 0 + (if add then (fm.length : Rat) * t else 0)
+  | [], _, _, _ => by simp [fmGet_nil]
+  | b :: fm, [], _, h => by simp at h
+  | b :: fm, wi :: w, hwf, h => by
+    have ih := fmScaleW_aux t add sp ac x a hx ha fm w (fun c hc => hwf c (List.mem_cons_of_mem _ hc)) (by simpa using h)
+    simp only [List.zip_cons_cons, List.map_cons, List.foldl_cons]
+    rw [fmGet_cons, ih, bm_get_affine wi t add sp ac x a b hx ha (hwf b (List.mem_cons_self ..)), foldl_add_init _ _ (0 + _)]
+    cases add <;> simp
+    ring
+
+/-- **FactoredMatrix2D::operator*=(const Vector &)** equals `getValue(space, actions, x, a, w)` at every (x, a)
+    (≥ 1 basis when `w` carries the constant) -/
+theorem fmScaleW_pointwise (sp ac x a : List Nat) (fm : FM) (w : List Rat) (hx : Valid sp x) (ha : Valid ac a) (hfm : FM.WF sp ac fm)
+    (hw : w.length = fm.length ∨ (w.length = fm.length + 1 ∧ fm ≠ [])) :
+    fmGet sp ac (fmScaleW w fm) x a = fmGetW sp ac fm x a w := by
+  unfold fmScaleW fmGetW
+  simp only
+  rw [fmScaleW_aux _ _ sp ac x a hx ha fm w hfm (by omega)]
+  conv_rhs => rw [foldl_add_init (fun bw : BM × Rat => bw.1.get sp ac x a * bw.2)]
+  rcases hw with hw | ⟨hw, hne⟩
+  · have : ¬ (w.length = fm.length + 1) := by omega
+    simp [this]
+  · have hn : (fm.length : Rat) ≠ 0 := by
+      have : fm.length ≠ 0 := by cases fm with | nil => exact absurd rfl hne | cons _ _ => simp
+      exact_mod_cast this
+    simp only [hw, decide_true, if_true]
+    field_simp
+    ring
+
+/-! ## the PartialState / PartialAction / PartialState overload of getTransitionProbability -/
+
+theorem sorted_sublist_range : ∀ (n : Nat) (l : List Nat), l.Pairwise (· < ·) → (∀ k ∈ l, k < n) → l.Sublist (List.range n) := by
+  intro n
+  induction n with
+  | zero =>
+    intro l _ h
+    cases l with
+    | nil => exact List.Sublist.refl _
+    | cons k _ => exact absurd (h k (List.mem_cons_self ..)) (by omega)
+  | succ n ih =>
+    intro l hs h
+    rw [List.range_succ]
+    by_cases hmem : n ∈ l
+    · -- n is the largest element, hence the last one
+      have hl : l ≠ [] := List.ne_nil_of_mem hmem
+      have hlast : l.getLast hl = n := by
+        rcases List.mem_iff_append.mp hmem with ⟨pre, post, rfl⟩
+        cases post with
+        | nil => simp
+        | cons p ps =>
+          exfalso
+          have h1 : n < p := by
+            have := (List.pairwise_append.mp hs).2.1
+            exact (List.pairwise_cons.mp this).1 p (List.mem_cons_self ..)
+          have h2 := h p (by simp)
+          omega
+      have hsplit := List.dropLast_append_getLast hl
+      rw [hlast] at hsplit
+      rw [← hsplit]
+      have hs' : (l.dropLast).Pairwise (· < ·) := hs.sublist (List.dropLast_sublist l)
+      have hlt : ∀ k ∈ l.dropLast, k < n := by
+        intro k hk
+        have : (l.dropLast ++ [n]).Pairwise (· < ·) := by rw [hsplit]; exact hs
+        exact (List.pairwise_append.mp this).2.2 k hk n (by simp)
+      exact List.Sublist.append (ih _ hs' hlt) (List.Sublist.refl _)
+    · have hlt : ∀ k ∈ l, k < n := by
+        intro k hk
+        have := h k hk
+        have : k ≠ n := fun e => hmem (e ▸ hk)
+        omega
+      exact (ih l hs hlt).trans (List.sublist_append_left _ _)
+
+/-- **DDN::getTransitionProbability(PartialState s, PartialAction a, PartialState s1)** with `s`, `a` given as full
+    assignments (`toPartialFactors`) is the product of the local probabilities of exactly the factors named by `s1` -/
+theorem ddnProbP_full (g : DDNGraph) (T : List Mat) (s a ns vs : List Nat)
+    (hs : s.length = g.S.length) (ha : a.length = g.A.length)
+    (hok : ∀ d ∈ ns, (g.ps d).agents.Pairwise (· < ·) ∧ (∀ k ∈ (g.ps d).agents, k < g.A.length) ∧
+            ∀ f ∈ (g.ps d).features, f.Pairwise (· < ·) ∧ ∀ k ∈ f, k < g.S.length) :
+    ddnProbP g T (List.range g.S.length) s (List.range g.A.length) a ns vs 1 = prodTag (localP g T s a) ns vs := by
+  rw [ddnProbP_eq, one_mul]
+  apply prodTag_congr
+  intro d hd v
+  unfold localP
+  obtain ⟨h1, h2, h3⟩ := hok d hd
+  have := getIdP_eq_getId g d (List.range g.S.length) (List.range g.A.length) s a
+    (sorted_sublist_range _ _ h1 h2) (fun f hf => sorted_sublist_range _ _ (h3 f hf).1 (h3 f hf).2)
+  rw [← hs, sel_range s, ← ha, sel_range a] at this
+  rw [← hs, ← ha, this]
+
 end AITB.Factored
